@@ -179,6 +179,12 @@ impl FramebufferTag {
                 let palette = {
                     // Ensure the slice can be created without causing UB
                     assert_eq!(mem::size_of::<FramebufferColor>(), 3);
+                    // The palette must lie inside this tag.
+                    assert!(
+                        num_colors as usize * mem::size_of::<FramebufferColor>()
+                            <= self.buffer.len() - reader.off,
+                        "The palette should be properly sized and available"
+                    );
 
                     unsafe {
                         slice::from_raw_parts(
